@@ -140,10 +140,13 @@ def run_property(prop, tier, seed, args):
         for o in refuted + unknown:
             fn = os.path.join(args.dump, o.name.replace("/", "_").replace(":", "_") + ".smt2")
             with open(fn, "w") as fh:
-                fh.write(o.smt_full or o.smt_core)
+                fh.write(o.smt_full or o.smt_core or "")
     if args.verbose:
         for o in sorted(obs + covers, key=lambda o: -(o.time + o.raw.get("prep", 0)))[:12]:
             print(f"  SLOW {o.time:6.1f}s prep={o.raw.get('prep', 0):5.1f}s {o.name} {o.raw.get('log')}")
+    if args.verbose:
+        for o in refuted + unknown:
+            print(f"  GOAL {o.name}: {str(o.goal)[:1500]}")
     if args.verbose:
         for o in obs:
             print(f"  {o.status:8s} {o.time:6.2f}s {o.name}  [{o.backend}]")
@@ -216,9 +219,12 @@ def run_property(prop, tier, seed, args):
         in_base = baseline is None or o.name in baseline
         if rp.get("found"):
             violations.append((o, path, True))
-        elif in_base:
+        elif o.status == "sat" and in_base:
+            # counter-model of the complete VC; no concrete input reproduced it
             violations.append((o, path, False))
         else:
+            # model of a weakened VC only (quantifier-free core / cone of influence) and no
+            # concrete failing input: undecided, never reported as a violation
             unknown.append(o)
     # run-time failures of clauses (bounded stand-in / cross-check) on their own
     rt_viol = []
